@@ -26,6 +26,12 @@ CONSTANTS N,          \* write steps of one save (value/array/byte writes)
 
 Absent == [kind |-> "none", id |-> 0, done |-> 0, total |-> 0]
 Foreign == [kind |-> "foreign", id |-> 0, done |-> 0, total |-> 0]
+\* an unreadable directory without the root marker.  It exists before a save (a pre-existing
+\* directory that is not an object) and it is what zarr's straggling writes leave behind: the writes
+\* of one batch run concurrently on zarr's I/O thread, a failing one does not cancel its siblings,
+\* and a sibling that lands after the clean-up re-creates part of the tree (never the root marker,
+\* which is written on its own before any batch)
+Junk(i) == [kind |-> "junk", id |-> i, done |-> 0, total |-> 0]
 Content(kind, id, done, total) == [kind |-> kind, id |-> id, done |-> done, total |-> total]
 Exists(c) == c.kind # "none"
 Loadable(c) == c.kind \in {"dir", "zip"} /\ c.done >= 1
@@ -41,7 +47,7 @@ vars == <<target, sibling, temp, pc, store, mode, id, before, completed, nsaves,
 Log(e) == hist' = IF Record THEN Append(hist, e) ELSE hist
 
 Init ==
-  /\ target \in {Absent, Foreign, Content("dir", 100, N, N), Content("zip", 100, M, M)}
+  /\ target \in {Absent, Foreign, Junk(0), Content("dir", 100, N, N), Content("zip", 100, M, M)}
   /\ sibling = Content("dir", 101, N, N) /\ temp = Absent
   /\ pc = "idle" /\ store = "dir" /\ mode = "w" /\ id = 0 /\ before = Absent
   /\ completed = {100, 101} /\ nsaves = 0 /\ hist = <<>>
@@ -104,11 +110,15 @@ Done ==
 \* an exception between any two steps.  `at` = number of steps of the current phase done.
 Fail ==
   /\ pc \in {"removed", "writing", "staging", "zipping"}
-  /\ LET at == IF pc = "staging" THEN temp.done ELSE target.done
-         phase == pc
-     IN Log([ev |-> "fail-" \o phase, store |-> store, mode |-> mode, at |-> at])
+  /\ \E left \in (IF Legacy \/ target.id # id THEN {target}          \* not ours (or no clean-up): untouched
+                  ELSE IF store = "dir" /\ pc = "writing" /\ target.done >= 1
+                       THEN {Absent, Junk(id)}                       \* clean-up, then possibly a straggler
+                       ELSE {Absent}) :                              \* clean-up of OUR partial target
+        /\ target' = left
+        /\ LET at == IF pc = "staging" THEN temp.done ELSE target.done
+               phase == pc
+           IN Log([ev |-> "fail-" \o phase, store |-> store, mode |-> mode, at |-> at, left |-> left.kind])
   /\ temp' = Absent
-  /\ target' = IF Legacy \/ target.id # id THEN target ELSE Absent   \* clean-up of OUR partial target
   /\ pc' = "idle"
   /\ UNCHANGED <<sibling, store, mode, id, before, completed, nsaves>>
 
